@@ -81,7 +81,7 @@ fn corpus(thorough: bool) -> Vec<Item> {
     add("stereo16_rate65540", b(1), &|c| {
         c.input.rate = 65540;
     });
-    if thorough {
+    {
         add("eight_ch20", b(4), &|_| {});
         add("stereo16_silence", b(1), &|c| c.input.atoms = [0, 0, 0, 0]);
         add("mono24_alt", b(2), &|c| {
